@@ -41,6 +41,10 @@ type H2Script struct {
 	// the connection behind the response HEADERS frame
 	StreamID uint32
 	Wire     []byte
+	// ConnGone, when non-nil, is closed when the connection that played the script is over on
+	// the peer's side (the client closed it, or the peer gave up waiting)
+	ConnGone chan struct{}
+	goneOnce sync.Once
 }
 
 // Recorded returns the stream id of the scripted request and the bytes the peer wrote on the
@@ -119,6 +123,12 @@ func (h *h2conn) writeHeaders(stream uint32, fields []Field, end bool) {
 }
 
 func (s *H2Server) serve(c net.Conn, connID int64) {
+	var played *H2Script
+	defer func() {
+		if played != nil && played.ConnGone != nil {
+			played.goneOnce.Do(func() { close(played.ConnGone) })
+		}
+	}()
 	defer c.Close()
 	if tc, ok := c.(*net.TCPConn); ok {
 		tc.SetNoDelay(true)
@@ -201,6 +211,7 @@ func (s *H2Server) serve(c net.Conn, connID int64) {
 			sc.mu.Lock()
 			sc.Conns1 = append(sc.Conns1, connID)
 			sc.mu.Unlock()
+			played = sc
 			if s.play(h, sid, sc) {
 				endConn()
 			}
